@@ -358,6 +358,115 @@ def gen_calls(seed, part, parts, reps, with_ill, passes=2):
             yield ev
 
 
+# ---------------------------------------------------------------------------
+# neighbour histories: "calling any function twice with equal arguments, in any order relative to other calls,
+# returns equal results".  A memo or cache keyed too coarsely (on a subset of the arguments, on a rounded epoch, on the
+# identity of an Epoch the caller later re-set) answers a NEIGHBOURING query with the stored result.  Every callable is
+# therefore queried at a base point and at one-argument perturbations of it, in this process in the order
+# base, v1, v2, ... (re-using and re-setting the SAME Angle/Epoch objects, as a caller may), and in a FRESH interpreter in
+# the reverse order with fresh objects.  All events carry the key of their argument values, so the memo of ApiHeap.tla
+# requires equal results for equal keys across both histories.
+# ---------------------------------------------------------------------------
+def _perturbations(v):
+    """-> list of (tag, function(old) -> new value or None when the object is changed in place)"""
+    from pymeeus.Angle import Angle
+    from pymeeus.Epoch import Epoch
+    if isinstance(v, bool):
+        return [("not", lambda o: not o)]
+    if isinstance(v, int):
+        return [("+1", lambda o: o + 1)]
+    if isinstance(v, float):
+        return [("+1e-4", lambda o: o + 1e-4 * max(1.0, abs(o)))]
+    if isinstance(v, str) and v in sum(A.STR["target"].values(), []):
+        alts = [t for ts in A.STR["target"].values() if v in ts for t in ts if t != v]
+        return [("alt", lambda o: alts[0])] if alts else []
+    if isinstance(v, Angle):
+        return [("+0.001deg", lambda o: float(o) + 0.001)]
+    if isinstance(v, Epoch):
+        return [("+30s", lambda o: o.jde() + 30.0 / 86400.0), ("+0.3d", lambda o: o.jde() + 0.3), ("-0.3d", lambda o: o.jde() - 0.3)]
+    return []
+
+
+def _apply(obj, newval, inplace):
+    """an argument carrying newval: the same object re-set in place (Angle/Epoch, when inplace) or a fresh one"""
+    from pymeeus.Angle import Angle
+    from pymeeus.Epoch import Epoch
+    if isinstance(obj, (Angle, Epoch)):
+        if inplace:
+            obj.set(newval)
+            return obj
+        return type(obj)(newval)
+    return newval
+
+
+def neighbour_events(seed, part, parts, reverse, G=None, tagp="nb1"):
+    entries = [e for i, e in enumerate(A.callables()) if i % parts == part]
+    G = G or Globals()
+    skip_attr = ("__init__", "__str__", "__repr__", "__hash__", "__call__")
+    for entry in entries:
+        qn = entry[0]
+        if qn in A.MUTATORS or entry[3] in skip_attr or qn in A.CLOCK:
+            continue
+        def fresh():
+            return build_call(entry, A.Gen("calls/%s/%s/%s" % (seed, qn, "nb")))
+        bc = fresh()
+        if bc is None:
+            continue
+        fn, args, kwargs, selfobj = bc
+        slots = [("arg%d" % i, a) for i, a in enumerate(args)] + ([("self", selfobj)] if selfobj is not None else [])
+        plan = [(slot, j) for (slot, v) in slots for j in range(len(_perturbations(v)))]
+        base0 = [float(a) if type(a).__name__ == "Angle" else (a.jde() if type(a).__name__ == "Epoch" else a) for (_, a) in slots]
+        seq = [None] + plan if not reverse else list(reversed(plan)) + [None]
+        base_args = tuple(args)
+        for step in seq:
+            if reverse:
+                fn, base_args, kwargs, selfobj = fresh()      # fresh objects for every call of the reversed history
+            args = list(base_args)
+            tag = "base"
+            if step is not None:
+                slot, j = step
+                idx = [n for (n, _) in slots].index(slot)
+                cur = selfobj if slot == "self" else args[idx]
+                ptag, f = _perturbations(cur)[j]
+                # perturb relative to the BASE value (the object may carry an earlier perturbation)
+                if type(cur).__name__ in ("Angle", "Epoch"):
+                    ref = type(cur)(base0[idx])
+                else:
+                    ref = base0[idx]
+                new = _apply(cur, f(ref), inplace=(not reverse) or slot == "self")
+                if slot != "self":
+                    args[idx] = new
+                tag = "%s%s" % (slot, ptag)
+            yield call_event(entry, fn, tuple(args), kwargs, selfobj, G, "well" if step is None else "near", "%s:%s" % (tagp, tag))
+            if step is not None and not reverse:
+                # undo the in-place perturbation of the other slots is not needed: each step re-sets from base0
+                for (n, v), b in zip(slots, base0):
+                    if type(v).__name__ in ("Angle", "Epoch"):
+                        v.set(b)
+
+
+def neighbour_child_main():
+    """entry point of the fresh interpreter: prints the reversed history as ndjson"""
+    import json, sys
+    spec = json.loads(sys.stdin.read())
+    for ev in neighbour_events(spec["seed"], spec["part"], spec["parts"], True, tagp="nb2"):
+        sys.stdout.write(json.dumps(ev) + "\n")
+
+
+def gen_neighbours(seed, part, parts):
+    import json, os, subprocess, sys
+    for ev in neighbour_events(seed, part, parts, False):
+        yield ev
+    p = subprocess.run([sys.executable, "-B", "-c", "import drv_api; drv_api.neighbour_child_main()"],
+                       input=json.dumps(dict(seed=seed, part=part, parts=parts)).encode(), stdout=subprocess.PIPE,
+                       stderr=subprocess.PIPE, env=os.environ, timeout=3000)
+    if p.returncode != 0:
+        raise RuntimeError("neighbour child failed: " + p.stderr.decode("utf-8", "replace")[-2000:])
+    for line in p.stdout.decode().splitlines():
+        if line.strip():
+            yield json.loads(line)
+
+
 def copy_events(seed):
     """copy constructors: the copy equals the source and shares no state with it"""
     g = A.Gen("copy/%s" % seed)
